@@ -93,8 +93,78 @@ SRC, RAW_OK, RAW_BAD, FILT = "SRC", "RAW_OK", "RAW_BAD", "FILT"
 # ----------------------------------------------------------------------
 # boolean implication over atoms
 
+# attributes of `<dataset>.filter` that are the combined selection or are
+# derived from it inside the Filter class (filled in by run())
+FILTER_ALL_NAMES = {"all"}
+# derived from `all` but remembered without being dropped by update / reset
+FILTER_STALE_NAMES = set()
+
+
+def filter_all_names(repo):
+    """`all` plus the properties / methods of rtdc_dataset.filter.Filter
+    whose value derives from the combined filter array only"""
+    names = {"all"}
+    cls = repo.cls("dclab/rtdc_dataset/filter.py", "Filter",
+                   missing_ok=True)
+    if cls is None:
+        return names
+    for st in cls.body:
+        if not isinstance(st, ast.FunctionDef) or st.name.startswith("__") \
+                or st.name in ("update", "reset", "all"):
+            continue
+        if len(st.args.args) != 1:
+            continue        # takes arguments: not a view of the filter
+        uses_all = False
+        uses_other = False
+        for n in walk(st):
+            if isinstance(n, ast.Attribute) and isinstance(
+                    n.value, ast.Name) and n.value.id == "self":
+                if n.attr == "all":
+                    uses_all = True
+                elif n.attr in ("box", "invalid", "polygon", "manual"):
+                    uses_other = True
+            if isinstance(n, ast.Call) and last_attr(n) in (
+                    "_get_rw_array", "_get_ro_array") and n.args:
+                if const_str(n.args[0]) == "all":
+                    uses_all = True
+                else:
+                    uses_other = True
+        if not (uses_all and not uses_other):
+            continue
+        # a memo inside the accessor is only a view of the *current*
+        # selection if every method that rewrites the filter arrays
+        # (update, reset) drops it
+        memos = {t.attr for n in walk(st) if isinstance(n, ast.Assign)
+                 for t in n.targets if isinstance(t, ast.Attribute)
+                 and isinstance(t.value, ast.Name) and t.value.id == "self"}
+        fresh = True
+        for m in memos:
+            for wname in ("update", "reset"):
+                w = [x for x in cls.body if isinstance(x, ast.FunctionDef)
+                     and x.name == wname]
+                if not w:
+                    continue
+                dropped = any(
+                    isinstance(n, ast.Assign) and any(
+                        isinstance(t, ast.Attribute) and t.attr == m
+                        and isinstance(t.value, ast.Name)
+                        and t.value.id == "self" for t in n.targets)
+                    and isinstance(n.value, ast.Constant)
+                    and n.value.value is None for n in walk(w[0])) or any(
+                    isinstance(n, ast.Delete) and any(
+                        isinstance(t, ast.Attribute) and t.attr == m
+                        for t in n.targets) for n in walk(w[0]))
+                if not dropped:
+                    fresh = False
+        if fresh:
+            names.add(st.name)
+        else:
+            FILTER_STALE_NAMES.add(st.name)
+    return names
+
+
 def _is_filter_all(e):
-    return (isinstance(e, ast.Attribute) and e.attr == "all"
+    return (isinstance(e, ast.Attribute) and e.attr in FILTER_ALL_NAMES
             and isinstance(e.value, ast.Attribute)
             and e.value.attr == "filter")
 
@@ -617,6 +687,17 @@ def functions_with_class(repo, rel):
     yield from rec(repo.tree(rel), None)
 
 
+def stale_note(func):
+    used = sorted({n.attr for n in walk(func) if isinstance(n, ast.Attribute)
+                   and n.attr in FILTER_STALE_NAMES and isinstance(
+                       n.value, ast.Attribute) and n.value.attr == "filter"})
+    if not used:
+        return ""
+    return (f" – `filter.{used[0]}` is not accepted as the current "
+            f"selection: Filter remembers it and not every method that "
+            f"rewrites the filter arrays (update, reset) drops the memo")
+
+
 def r121(ctx, repo):
     entry_points = []
     n_funcs = 0
@@ -691,7 +772,8 @@ def r121(ctx, repo):
                        f"unfiltered feature data reach this {kind}: a value "
                        f"read from the dataset is used without the "
                        f"`[….filter.all]` selection on some path (and not "
-                       f"under a test that filtering is not wanted)",
+                       f"under a test that filtering is not wanted)"
+                       + stale_note(ft.func),
                        node=node, label=f"filter taint: {lab}")
     ctx.stat("R12.1 functions analysed", n_funcs)
     ctx.stat("R12.1 entry points (functions with a data sink)", entry_points)
@@ -1979,7 +2061,15 @@ def r126(ctx, repo):
 
                 def __len__(self):
                     return n
-            me = Me(mini, cls, filter=NS("filter", all=Arr(mask, "bool")))
+            # the filter is an instance of the parsed Filter class whose
+            # boolean arrays are given by the harness (further attributes /
+            # properties are resolved in the class)
+            fmask = Arr(mask, "bool")
+            filt = SelfModel(
+                mini, repo.cls("dclab/rtdc_dataset/filter.py", "Filter"),
+                all=fmask, _get_rw_array=lambda *a, **k: fmask,
+                _get_ro_array=lambda *a, **k: fmask)
+            me = Me(mini, cls, filter=filt)
             tag = f"filter {mask}, downsampler keeps {pick}"
             # both return forms: (x, y, mask) and (x, y)
             with_mask = n_eval % 3 != 0
@@ -2063,6 +2153,10 @@ def r126(ctx, repo):
 
 def run(ctx):
     repo = ctx.repo
+    FILTER_ALL_NAMES.clear()
+    FILTER_STALE_NAMES.clear()
+    FILTER_ALL_NAMES.update(filter_all_names(repo))
+    ctx.stat("selection attributes of Filter", sorted(FILTER_ALL_NAMES))
     ctx.rule("R12.1", "filter taint: feature data reaching an estimator / "
              "downsampler / statistic / writer / return passed the "
              "filter.all selection (or filtering is switched off)",
